@@ -80,8 +80,11 @@ func (filter *SearchableQueryFilter) FilterSearchableComparisons(statement sqlpa
 // ChangeSearchableOperator change the operator of ComparisonExpr to EqualStr|NotEqualStr depending on expr.Operator
 func (filter *SearchableQueryFilter) ChangeSearchableOperator(expr *sqlparser.ComparisonExpr) {
 	switch expr.Operator {
-	case sqlparser.EqualStr, sqlparser.NullSafeEqualStr, sqlparser.LikeStr, sqlparser.ILikeStr:
+	case sqlparser.EqualStr, sqlparser.LikeStr, sqlparser.ILikeStr:
 		expr.Operator = sqlparser.EqualStr
+	case sqlparser.NullSafeEqualStr:
+		// stays NULL-safe: over the rewritten operands <=> answers what it answered over the values, also for a NULL column
+		// (NOT (col <=> 'x') selects the rows holding NULL, NOT (col = 'x') does not)
 	case sqlparser.NotEqualStr, sqlparser.NotLikeStr, sqlparser.NotILikeStr:
 		expr.Operator = sqlparser.NotEqualStr
 	}
